@@ -271,6 +271,15 @@ def compare_layers(ref_layers, got_layers, tol, ngrid=24, check_palette=True):
         if bad:
             bad.update({"what": "colour at point", "layer": i, "ref_paint": r.paint.describe(), "got_paint": g.paint.describe()})
             bad["mechanism"] = classify_extend_interval(r.paint, g.paint, ip, eps)
+            e_svg = max(getattr(g, "err_svg", 0.0), getattr(r, "err_svg", 0.0))
+            if bad["mechanism"] is None and e_svg > 0:
+                # known finding F8: the 3-decimal rounding of an emitted <use>/<g> matrix displaces everything drawn
+                # through it, the layer's gradient included.  Attributed to it only if widening the envelope by that
+                # displacement bound makes every point agree.
+                bad2, _ = compare_paint(r.paint, g.paint, ip, eps + e_svg)
+                if bad2 is None:
+                    bad["mechanism"] = "F8-svg-transform-3-decimals"
+                    bad["err_svg"] = round(e_svg, 3)
             problems.append(bad)
             continue
         if r.paint.kind == g.paint.kind and r.paint.kind != "solid":
